@@ -19,6 +19,7 @@ import (
 	"crypto/rsa"
 	"crypto/x509"
 	"crypto/x509/pkix"
+	"encoding/asn1"
 	"encoding/base64"
 	"encoding/pem"
 	"fmt"
@@ -472,6 +473,60 @@ func TestVerifC10(t *testing.T) {
 				fuzzOne("authorization-header", verifReq{Method: "POST", Path: "/certgen/alice", Header: map[string]string{"Authorization": hv}}, hv, true)
 			}
 		}
+	}
+	// client certificates whose address extension holds one block of every bit length 0..72 and around 256 / 65536,
+	// alone or after a well-formed block: a deterministic sweep next to the random bytes above (a bound that is only
+	// wrong for lengths 33..39, or modulo 256, is hit for certain)
+	{
+		type fam struct {
+			AddressFamily []byte
+			Addresses     []asn1.BitString
+		}
+		var lens []int
+		for bl := 0; bl <= 72; bl++ {
+			lens = append(lens, bl)
+		}
+		for _, base := range []int{248, 256, 264, 65536} {
+			for d := 0; d <= 8; d += 4 {
+				lens = append(lens, base+d)
+			}
+		}
+		for _, bl := range lens {
+			by := make([]byte, (bl+7)/8)
+			for i := range by {
+				by[i] = 0xff
+			}
+			if bl%8 != 0 {
+				by[len(by)-1] &= ^byte(0) << (8 - bl%8)
+			}
+			blk := asn1.BitString{Bytes: by, BitLength: bl}
+			for vi, addrs := range [][]asn1.BitString{{blk}, {{Bytes: []byte{10}, BitLength: 8}, blk}} {
+				val, err := asn1.Marshal([]fam{{AddressFamily: []byte{0, 1, 1}, Addresses: addrs}})
+				if err != nil {
+					continue
+				}
+				leaf := verifMakeLeaf("autobot", verifUserECKey().Public(), env.RoleCACert(), ca, time.Now().Add(-time.Hour), time.Now().Add(time.Hour),
+					[]pkix.Extension{{Id: verifOIDIPDelegation, Value: val}})
+				cs := env.TLSFor(leaf)
+				if cs == nil {
+					continue
+				}
+				in := fmt.Sprintf("bitlength=%d,variant=%d,%x", bl, vi, val)
+				if len(in) > 200 {
+					in = in[:200]
+				}
+				q := verifRoleRefreshReq(verifUserECKey().Public())
+				q.TLS = cs
+				q.RemoteAddr = "10.1.1.1:999"
+				fuzzOne("clientcert-ext-refresh", q, in, true)
+				q2 := verifCertReq("autobot", "x509", verifPKIXPEM(verifUserECKey().Public()), "1h", nil)
+				q2.TLS = cs
+				q2.RemoteAddr = "10.1.1.1:999"
+				fuzzOne("clientcert-ext-certgen", q2, in, true)
+				rep.Count("ext_bitlength_sweep", 1)
+			}
+		}
+		rep.Floor("ext_bitlength_sweep", 100)
 	}
 	// A certificate request whose key is not where the handler looks for it:
 	// no upload at all, the key as a plain form field, the upload under
